@@ -81,6 +81,20 @@ class C12(InvProp):
         c = inv(files)
         c["repeat"] = 3
         out.append(c)
+        # one node FILE under two node names (symlinked file; symlinked directory with composed names) whose parameters
+        # are derived from the node's own metadata: each name's inventory entry equals its own single render
+        from .. import genv as _G
+        meta_params = _G.enc({"fqdn": "${_reclass_:name:short}.example.com", "tier": "${_reclass_:name:path}", "full": "${_reclass_:name:full}"})
+        for compose in (False, True):
+            files = [{"path": "classes/common.yml", "content": {"parameters": _G.enc({"who": "${_reclass_:name:full}"})}},
+                     {"path": "nodes/web01.yml", "content": {"classes": ["common"], "parameters": meta_params}},
+                     {"path": "nodes/www.yml", "kind": "symlink", "target": "web01.yml"},
+                     {"path": "nodes/aaa.yml", "kind": "symlink", "target": "web01.yml"},
+                     {"path": "nodes/prod/app1.yml", "content": {"classes": ["common"], "parameters": meta_params}},
+                     {"path": "nodes/staging", "kind": "symlink", "target": "prod"}]
+            if not compose:
+                files = files[:4]
+            out.append({"op": "inventory", "config": {"compose_node_name": compose}, "files": files, "repeat": 2})
         for c in C13_CLAUSES:
             c = dict(c)
             c["repeat"] = 2
